@@ -275,6 +275,32 @@ def build_traces(path, tier, seed):
             raised = True
         add({"kind": "add", "x": enc_seq(x0), "inc": enc_seq(inc), "y": enc_seq(np.asarray(o.values, dtype=float)), "raised": raised, "must_raise": must},
             {"kind": "add", "op": ["add_constant", "add_series", "add_signal", "add_series(wrong length)", "add_signal(wrong dt)", "add_signal(wrong length / not a signal)"][k], "n": n, "raised": raised, "unit": u})
+    # --- adding whole-number constants / count series / count signals to records held as counts in narrow integer types
+    for i in range(18 if tier == "quick" else 120):
+        n = int(rng.integers(2, 120))
+        dt = 0.01
+        dt_ = [np.int8, np.uint8, np.int16, np.int32, np.uint16, np.int8][i % 6]
+        ii = np.iinfo(dt_)
+        x = rng.integers(ii.min, ii.max, size=n, endpoint=True).astype(dt_)
+        cls = eqsig.AccSignal if i % 2 else eqsig.Signal
+        o = cls(x.copy(), dt)
+        x0 = np.asarray(x, dtype=float)
+        k = (i // 6) % 3
+        small = int(min(ii.max, 100))
+        if k == 0:
+            c = [int(rng.integers(1, small)), np.int64(rng.integers(1, small)), dt_(rng.integers(1, small)), -int(rng.integers(1, small))][int(rng.integers(4))]
+            o.add_constant(c)
+            inc = np.full(n, float(c))
+        elif k == 1:
+            s = rng.integers(ii.min, ii.max, size=n, endpoint=True).astype(dt_)
+            o.add_series(s if i % 4 else [int(v) for v in s])
+            inc = np.asarray(s, dtype=float)
+        else:
+            s = rng.integers(ii.min, ii.max, size=n, endpoint=True).astype(dt_)
+            o.add_signal(eqsig.Signal(s, dt) if i % 4 else eqsig.AccSignal(s, dt))
+            inc = np.asarray(s, dtype=float)
+        add({"kind": "add", "x": enc_seq(x0), "inc": enc_seq(inc), "y": enc_seq(np.asarray(o.values, dtype=float)), "raised": False, "must_raise": False},
+            {"kind": "add", "op": ["add_constant", "add_series", "add_signal"][k], "n": n, "raised": False, "record dtype": np.dtype(dt_).name})
     # --- running average, widths 1..25
     nrun = 30 if tier == "quick" else 250
     for i in range(nrun):
